@@ -1322,6 +1322,10 @@ func (r *replicateChannelHandler) getTSManagerChannelKey(channelName string) str
 
 func (r *replicateChannelHandler) innerHandleReplicateMsg(forward bool, msg *api.ReplicateMsg) {
 	msgPack := msg.MsgPack
+	sourceEndTs := msg.SourceEndTs
+	if sourceEndTs == 0 && msgPack != nil {
+		sourceEndTs = msgPack.EndTs
+	}
 	verifYield("enter", r.targetPChannel, msg, nil)
 	if _, failed := r.failedCollections.Load(msg.CollectionID); failed && !forward {
 		// a pack of the collection can't be handled and the error has been reported, the following packs should not be
@@ -1341,6 +1345,7 @@ func (r *replicateChannelHandler) innerHandleReplicateMsg(forward bool, msg *api
 	p.CollectionName = msg.CollectionName
 	p.PChannelName = msg.PChannelName
 	p.TaskID = msg.TaskID
+	p.SourceEndTs = sourceEndTs
 	verifYield("computed", r.targetPChannel, msg, p)
 	// handlePack returns a pack with the target channel lock hold, release it after the pack is in the target channel
 	GetTSManager().UnsafeSendTargetMsg(r.getTSManagerChannelKey(r.targetPChannel), p)
